@@ -667,10 +667,28 @@ impl HttpContext {
         let mut traceparent: Option<&mut kawa::Pair> = None;
         #[cfg(feature = "opentelemetry")]
         let mut tracestate: Option<&mut kawa::Pair> = None;
+        let mut malformed_field = false;
         for block in &mut request.blocks {
             match block {
                 kawa::Block::Header(header) if !header.is_elided() => {
                     let key = header.key.data(buf);
+                    // RFC 9110 §5.1 / §8.6: a field name is a non-empty token and
+                    // Content-Length is 1*DIGIT. kawa lets `: value` and
+                    // `Content-Length: +5` through and the H1 converter writes
+                    // them out verbatim: refuse the request rather than forward
+                    // a head no grammar allows.
+                    if key.is_empty()
+                        || (compare_no_case(key, b"content-length")
+                            && !header
+                                .val
+                                .data(buf)
+                                .trim_ascii()
+                                .iter()
+                                .all(u8::is_ascii_digit))
+                    {
+                        malformed_field = true;
+                        break;
+                    }
                     if compare_no_case(key, b"connection") {
                         has_connection = true;
                         if self.closing {
@@ -784,6 +802,12 @@ impl HttpContext {
                 }
                 _ => {}
             }
+        }
+        if malformed_field {
+            request
+                .parsing_phase
+                .error("empty field name or Content-Length that is not 1*DIGIT".into());
+            return;
         }
 
         #[cfg(feature = "opentelemetry")]
